@@ -381,7 +381,7 @@ add("C35", "truncated ray end computed but not used", "nifty/cl/library/los_resp
 add("C35", "single line of sight mapped over its coordinates", "nifty/re/extra/sampling_los.py", "        if self.start.ndim == 1 and self.end.ndim == 1:\n            # A single line of sight: nothing to map over\n            return self._los(x, self.start, self.end)\n", "", "R35.11")
 add("C30", "scalar-target branch bypasses value_reshaper", "nifty/cl/operators/normal_operators.py", "        mean, sigma = (float(value_reshaper(param, 0)) for param in (mean, sigma))", "        mean, sigma = np.asarray(mean, dtype=float), np.asarray(sigma, dtype=float)", "R30.9")
 add("C12", "non-callable std_inv called before it is wrapped", "nifty/re/likelihood_impl.py", "        if not callable(si):\n            si = Partial(operator.mul, si)\n", "", "R12.13")
-add("C01", "None blocks composed as operators", "nifty/cl/operators/block_diagonal_operator.py", "            res[key] = v2 if v1 is None else (v1 if v2 is None else v1(v2))", "            res[key] = v1(v2)", "R01.8")
+add("C01", "None blocks composed as operators", "nifty/cl/operators/block_diagonal_operator.py", "            if v1 is None and v2 is None:\n                continue\n            res[key] = v2 if v1 is None else (v1 if v2 is None else v1(v2))", "            res[key] = v1(v2)", "R01.8")
 add("C14", "relative change evaluated between two vanishing energies", "nifty/cl/minimization/iteration_controllers.py", "            rel = abs(self._Eold-Eval)/denom if denom > 0 else 0.", "            rel = abs(self._Eold-Eval)/denom", "R14.7")
 add("C27", "output globals set only when a directory is given", "nifty/cl/minimization/optimize_kl.py", "    _output_directory = output_directory\n    _save_strategy = save_strategy\n    if output_directory is not None:\n", "    if output_directory is not None:\n        _output_directory = output_directory\n        _save_strategy = save_strategy\n", "R27.13")
 add("C27", "dry run keeps the initial sample list", "nifty/cl/minimization/optimize_kl.py", "            sl = _single_value_sample_list(mean, comm(iglobal))\n            pop_sseq()\n            continue\n", "            pop_sseq()\n            continue\n", "R27.14")
